@@ -1,2 +1,123 @@
+import Carquet.Proofs.Schema
+/-
+C17 — schema trees map to the right leaf columns and def/rep levels.
+Property statements only; helper lemmas are in Carquet/Proofs/Schema.lean.
+`WellFormed root`: the root is a group with at least one child and every inner group has at
+least one child (what the Parquet format requires of a schema; an empty group would be stored
+with `num_children = 0` and is indistinguishable from a leaf).
+-/
 namespace Carquet.Properties.C17
+open Carquet Carquet.Spec.Schema Carquet.Impl.Schema Carquet.Proofs.Schema
+
+def wellFormedB : Node → Bool
+  | .leaf _ => false
+  | .group i cs => groupsNonEmpty (.group i cs)
+
+def WellFormed (root : Node) : Prop := wellFormedB root = true
+
+instance (root : Node) : Decidable (WellFormed root) := by unfold WellFormed; infer_instance
+
+/-- For every schema tree (any nesting of required/optional/repeated groups and leaves, any
+depth, any size), `build_schema` run on its depth-first element list exposes exactly the
+leaves in depth-first order, with max definition level = number of optional-or-repeated nodes
+on the path and max repetition level = number of repeated nodes on the path. -/
+theorem C17_traverse_eq_spec : ∀ root : Node, WellFormed root →
+    Impl.Schema.build (flatten root) = some (leaves root) := by
+  intro root h
+  cases root with
+  | leaf _ => exact absurd h (by simp [WellFormed, wellFormedB])
+  | group i cs => exact build_flatten i cs h
+
+def exInfo (n : String) (r : Option Rep) : Info := ⟨n, r, some 1, 0, none⟩
+/-- the example of the comment in file_reader.c -/
+def exTree : Node :=
+  .group (exInfo "schema" none) [
+    .leaf (exInfo "a" (some .optional)),
+    .group (exInfo "b" (some .optional)) [.leaf (exInfo "c" (some .required)), .leaf (exInfo "d" (some .optional))],
+    .group (exInfo "e" (some .repeated)) [.leaf (exInfo "f" (some .required)), .leaf (exInfo "g" (some .optional))]]
+example : WellFormed exTree := by decide
+example : Impl.Schema.build (flatten exTree) = some [⟨1, 1, 0⟩, ⟨3, 1, 0⟩, ⟨4, 2, 0⟩, ⟨6, 1, 1⟩, ⟨7, 2, 1⟩] := by
+  rw [C17_traverse_eq_spec exTree (by decide)]; decide
+
+/-- The number of columns is the number of leaves of the tree. -/
+theorem C17_column_count : ∀ root : Node, WellFormed root →
+    countLeaves (flatten root) = (leaves root).length := by
+  intro root h
+  cases root with
+  | leaf _ => exact absurd h (by simp [WellFormed, wellFormedB])
+  | group i cs => exact countLeaves_root i cs h
+example : countLeaves (flatten exTree) = 5 := by decide
+
+/-- Column k points at the schema element of the k-th leaf of the tree: name, type,
+repetition, type length and logical type read through a column's element are what the file
+states for that leaf. -/
+theorem C17_accessors : ∀ root : Node, WellFormed root →
+    (leaves root).map (fun l => (flatten root)[l.elemIdx]?) =
+      (leafInfosOf root).map (fun i => some (⟨i, 0⟩ : Element)) := by
+  intro root h
+  cases root with
+  | leaf _ => exact absurd h (by simp [WellFormed, wellFormedB])
+  | group i cs =>
+    have := leaf_elements_list cs [⟨i, cs.length⟩] [] 0 0
+    simpa [leaves, flatten, leafInfosOf] using this
+example : (leaves exTree).map (fun l => ((flatten exTree)[l.elemIdx]?).map (·.info.name)) =
+    [some "a", some "c", some "d", some "f", some "g"] := by decide
+
+/-- Lookup by name returns the first column (in depth-first leaf order) whose leaf carries
+that name, or nothing when no leaf does. -/
+theorem C17_find_by_name : ∀ (root : Node) (name : String), WellFormed root →
+    findColumn (flatten root) (leaves root) name =
+      (leafInfosOf root).findIdx? (fun i => i.name == name) := by
+  intro root name h
+  have hacc := C17_accessors root h
+  unfold findColumn
+  generalize leaves root = ls at hacc
+  generalize leafInfosOf root = infos at hacc
+  induction ls generalizing infos with
+  | nil => cases infos <;> simp_all
+  | cons l ls ih =>
+    cases infos with
+    | nil => simp at hacc
+    | cons i is =>
+      simp only [List.map_cons, List.cons.injEq] at hacc
+      have := ih is hacc.2
+      simp [List.findIdx?_cons, hacc.1, this]
+example : findColumn (flatten exTree) (leaves exTree) "d" = some 2 ∧
+    findColumn (flatten exTree) (leaves exTree) "b" = none := by decide
+
+/-- Schemas built through the builder API: for ANY number of `add_column` calls (also past the
+initial capacity of 64, the element array is only ever appended to) the builder's elements
+are the depth-first list of the flat tree with those leaves, and its columns/levels are the
+ones the format rule gives for that tree. -/
+theorem C17_builder_flat : ∀ infos : List Info,
+    (infos.foldl Builder.addColumn Builder.create).elements =
+        flatten (.group rootInfo (infos.map Node.leaf)) ∧
+    (infos.foldl Builder.addColumn Builder.create).leaves =
+        leaves (.group rootInfo (infos.map Node.leaf)) ∧
+    (infos.foldl Builder.addColumn Builder.create).leaves.length = infos.length := by
+  intro infos
+  obtain ⟨h1, h2⟩ := builder_closed_form infos
+  refine ⟨?_, ?_, ?_⟩
+  · simp [h1, flatten, flattenList_leaves]
+  · simp [h2, leaves, leavesOfList_leaves]
+  · simp [h2]
+example : (([exInfo "x" (some .repeated), exInfo "y" (some .optional)].foldl Builder.addColumn Builder.create).leaves
+    = [⟨1, 1, 1⟩, ⟨2, 1, 0⟩]) := by decide
+
+/-- Capacity growth of the builder always reaches the required size (the doubling loop of
+`schema_ensure_capacity`), so growth never loses an element. -/
+theorem C17_builder_capacity : ∀ infos : List Info,
+    (infos.foldl Builder.addColumn Builder.create).elements.length = infos.length + 1 := by
+  intro infos
+  obtain ⟨h1, _⟩ := builder_closed_form infos
+  simp [h1]
+
+/-- (used by C04) `compute_levels` does at most `2 * num_elements` loop iterations and calls for
+ANY element list, whatever the child counts claim — this is the statement that was false
+before the fix of F10. -/
+theorem C17_traversal_linear : ∀ els : List Element, buildSteps els ≤ 2 * els.length :=
+  buildSteps_linear
+example : buildSteps [⟨exInfo "r" none, 2147483647⟩, ⟨exInfo "g" (some .optional), 2147483647⟩,
+    ⟨exInfo "l" (some .optional), 0⟩] ≤ 6 := C17_traversal_linear _
+
 end Carquet.Properties.C17
